@@ -132,14 +132,33 @@ class Gen:
             return [("do", ["query"] if rng.random() < 0.6 else ["callsoonquery"])]
         if k == "raise":
             return [("raise", list(rng.choice([["user", 1], ["base", 1]])))]
+        if k == "eager" and depth > 0:
+            saved = self.cur
+            n = getattr(self, "nspawned", 0)
+            self.cur = "plain"
+            self.nspawned = 0
+            try:
+                child = self.block(depth - 1, [])
+            finally:
+                self.cur = saved
+                self.nspawned = n
+            after = [("do", ["cancelaw", 1000 + n])] if rng.random() < 0.35 else []
+            if rng.random() < 0.7:
+                after.append(("try", [("do", ["awaitfut", 1000 + n])], "base", [("logexc",)], []))
+            self.nspawned = n + 1
+            return [("spawn", ["eager"], child)] + after
         if k == "spawn" and depth > 0:
             how = list(rng.choice(cfg.get("spawn_kinds", [["plain"], ["py"], ["descend"], ["start"]])))
             saved = self.cur
             self.cur = how[0] if how[0] in ("py", "prio") else "plain"
+            savedn = getattr(self, "nspawned", 0)
+            self.nspawned = 0
             try:
-                return [("spawn", how, self.block(depth - 1, []))]
+                child = self.block(depth - 1, [])
             finally:
                 self.cur = saved
+                self.nspawned = savedn + 1
+            return [("spawn", how, child)]
         return [("do", self.log())]
 
     def block(self, depth, held):
@@ -151,6 +170,7 @@ class Gen:
 
     def worker(self, kind="plain"):
         self.cur = kind
+        self.nspawned = 0
         return build([("do", self.log())] + self.block(self.cfg.get("depth", 2), []))
 
 
@@ -224,6 +244,10 @@ def gen_case(rng: random.Random, cfg: dict) -> dict:
             acts.append(["spawn", how, g.worker(how[0])])
         elif k == "callsoon":
             acts.append(["do", ["callsoon", 200 + rng.randrange(20)]])
+        elif k == "query":
+            acts.append(["do", ["query"]])
+        elif k == "callsoonquery":
+            acts.append(["do", ["callsoonquery"]])
         else:
             acts.append(["step"])
     # drain: run what is left so that end states are compared too
@@ -239,7 +263,7 @@ FULL = {
     "ops": {"log": 3, "sleep0": 4, "sleep": 1, "eventwait": 2, "eventset": 1, "awaitfut": 1, "setresult": 0.5,
             "awaittask": 1, "cancel": 0.7, "throw": 0.7, "interrupt": 0.7, "section": 3, "condwait": 1.5,
             "notify": 1.5, "try": 2, "timeout": 1, "sleepinsert": 0.5, "switch": 0.5, "callsoon": 0.3,
-            "callpos": 0.3, "setprio": 0.3, "query": 0.7, "raise": 0.3, "spawn": 0.7, "acquire": 0.2, "release": 0.2},
+            "callpos": 0.3, "setprio": 0.3, "query": 0.7, "eager": 0.8, "raise": 0.3, "spawn": 0.7, "acquire": 0.2, "release": 0.2},
     "env": {"step": 12, "advance": 1.5, "cancel": 1, "throw": 1, "eventset": 1, "setresult": 0.7,
             "setexc": 0.3, "futcancel": 0.3, "spawn": 0.3, "callsoon": 0.2},
     "nacts": (8, 40), "nworkers": (2, 4), "depth": 2,
